@@ -683,7 +683,12 @@ func (r *cliRun) report(ev *cliEvent, extra []string) string {
 			r.strGranted[f.sid] = r.curInit
 			r.checkRequestBlock(f)
 		case 3:
-			queued = append(queued, fmt.Sprintf("R%d:%d", f.sid, binary.BigEndian.Uint32(f.payload)))
+			if code := binary.BigEndian.Uint32(f.payload); code == 2 {
+				// INTERNAL_ERROR is the reset the write loop writes itself (a request body that failed)
+				direct = append(direct, fmt.Sprintf("R%d:%d", f.sid, code))
+			} else {
+				queued = append(queued, fmt.Sprintf("R%d:%d", f.sid, code))
+			}
 		case 4:
 			if f.flags&1 == 1 && len(f.payload) == 0 {
 				queued = append(queued, "SA")
